@@ -41,15 +41,12 @@ def main():
             fired = []
             details = {}
             t = time.time()
-            for pid in (props or allprops):
-                r = subprocess.run([os.path.join(VERIF, "check"), pid, "--repo", repo, "--no-evidence"], capture_output=True, text=True,
-                                   env=dict(os.environ, VERIF_ONLY_CONFIGS=os.environ.get("VERIF_ONLY_CONFIGS", "")))
-                if r.returncode != 0:
-                    fired.append(pid)
-                    lines = [l for l in r.stdout.splitlines() if l.startswith("  rule=") or l.startswith("VIOLATION") and False]
-                    details[pid] = [l.strip() for l in r.stdout.splitlines() if l.startswith("  rule=")][:4]
-                    if "BUILD" in r.stdout:
-                        details[pid] = ["BUILD FAILURE: " + r.stdout[-600:]]
+            r = subprocess.run([os.path.join(VERIF, "check"), "ALL", "--repo", repo], capture_output=True, text=True)
+            try:
+                details = json.loads(r.stdout.strip().splitlines()[-1])
+            except Exception:
+                details = {"ENGINE": [r.stdout[-500:] + r.stderr[-500:]]}
+            fired = sorted(details)
             exp = m.get("expect")
             status = "ok"
             if exp is not None:
